@@ -1,10 +1,11 @@
 #!/bin/bash
-# usage: tools/try_seed.sh <Cxx> [name]  — confirm a seeded change made by an independent agent in /tmp/seed_<Cxx> and run our check on it
-prop=$1; name=${2:-$1-a}
-wt=/tmp/seed_$prop; demo=/tmp/seed_${prop}_demo
+# usage: tools/try_seed.sh <Cxx> <letter> [tier] — confirm a seeded change made by an independent agent in /tmp/seed_<Cxx>-<letter> and run our check on it
+prop=$1; let=${2:-a}; tier=${3:-quick}; name=$prop-$let
+wt=/tmp/seed_$name; demo=/tmp/seed_${name}_demo
 echo "== diff stat"; git -C $wt diff --stat | tail -3
 echo "== test-suite with the change"; (cd $wt && env -u PYTHONPATH /venv/bin/python -m pytest -q -p no:cacheprovider --timeout=900 --continue-on-collection-errors 2>&1 | tail -1)
-echo "== demo on changed code"; SYMPY_GROUND_TYPES=python PYTHONPATH=$demo/shims timeout 600 /venv/bin/python $demo/demo.py $wt > /tmp/seed_out_changed.txt 2>&1; echo "exit=$?"; tail -3 /tmp/seed_out_changed.txt
-echo "== demo on /repo (unchanged)"; SYMPY_GROUND_TYPES=python PYTHONPATH=$demo/shims timeout 600 /venv/bin/python $demo/demo.py /repo > /tmp/seed_out_orig.txt 2>&1; echo "exit=$?"; tail -2 /tmp/seed_out_orig.txt
-echo "== our check (quick) on the changed checkout"; VERIF_REPO=$wt /verif/check $prop quick 2>&1 | grep -v "^WARNING" | grep -v "^KNOWN" | tail -5
+echo "== demo on changed code"; SYMPY_GROUND_TYPES=python PYTHONPATH=$demo/shims timeout 600 /venv/bin/python $demo/demo.py $wt > /tmp/seed_out_${name}_changed.txt 2>&1; echo "exit=$?"; tail -3 /tmp/seed_out_${name}_changed.txt
+echo "== demo on /repo (unchanged)"; SYMPY_GROUND_TYPES=python PYTHONPATH=$demo/shims timeout 600 /venv/bin/python $demo/demo.py /repo > /tmp/seed_out_${name}_orig.txt 2>&1; echo "exit=$?"; tail -2 /tmp/seed_out_${name}_orig.txt
+echo "== our check ($tier) on the changed checkout"; VERIF_REPO=$wt /verif/check $prop $tier 2>&1 | grep -v "^WARNING" | grep -v "^KNOWN" | tail -6
 mkdir -p /verif/seeded/$name; git -C $wt diff > /verif/seeded/$name/patch.diff; cp $demo/demo.py /verif/seeded/$name/demo.py
+rm -f /tmp/seed_out_${name}_changed.txt /tmp/seed_out_${name}_orig.txt
